@@ -37,7 +37,7 @@ def plan(tier, seed):
     # the same with ensembles far beyond any plausible internal batch: a composition that is fixed after the first ~1000 picks (a batch of picks that
     # is re-used instead of redrawn) is off by ~ sqrt(p q / 1000) for ever, which only a tolerance well below that value can see
     for i in range(3 if tier == "quick" else 8):
-        cases.append({"kind": "isomers", "seed": seed * 1000633 + i, "nmol": 60000 if tier == "quick" else 150000})
+        cases.append({"kind": "isomers", "seed": seed * 1000633 + i, "nmol": 60000 if tier == "quick" else 120000})
     return cases
 
 
